@@ -233,9 +233,24 @@ fn hists_str(s: &str, d: &str, h: &str, out: &mut Out) {
     // std's `Split<&str>` is not double-ended: for delimiters whose occurrences cannot overlap the
     // oracle is a deque of std's pieces, otherwise only implementation vs model is compared
     let has_oracle = !d.is_empty() && !has_border(db);
+    let all_f = hb.iter().all(|c| *c == b'f');
+    let all_b = hb.iter().all(|c| *c == b'b');
     let ora = |front: bool| -> String {
         if has_oracle {
             deque_hist(s, db.len(), s.split(d).collect(), hb, front)
+        } else if all_f || all_b {
+            // a history that only ever takes from ONE end has an oracle for every delimiter: std's `split` for the
+            // front end, std's `rsplit` for the back end (added after seeded change C06-r4-1: `next_back` of an
+            // empty delimiter walked from the front)
+            let from_front = if front { all_f } else { all_b };
+            let pieces: Vec<&str> = if from_front {
+                s.split(d).collect()
+            } else {
+                let mut v: Vec<&str> = s.rsplit(d).collect();
+                v.reverse();
+                v
+            };
+            deque_hist(s, db.len(), pieces, hb, front)
         } else {
             "?".to_string()
         }
